@@ -37,14 +37,14 @@ type Mutex struct {
 }
 
 func (m *Mutex) Lock() {
-	if vsched.Active {
+	if vsched.On() {
 		vsched.MutexLock(&m.st)
 	}
 	m.mu.Lock()
 }
 
 func (m *Mutex) TryLock() bool {
-	if vsched.Active {
+	if vsched.On() {
 		if !vsched.MutexTryLock(&m.st) {
 			return false
 		}
@@ -55,7 +55,7 @@ func (m *Mutex) TryLock() bool {
 }
 
 func (m *Mutex) Unlock() {
-	if vsched.Active {
+	if vsched.On() {
 		vsched.MutexUnlock(&m.st)
 	}
 	m.mu.Unlock()
@@ -68,14 +68,14 @@ type RWMutex struct {
 }
 
 func (rw *RWMutex) Lock() {
-	if vsched.Active {
+	if vsched.On() {
 		vsched.RWLock(&rw.st)
 	}
 	rw.mu.Lock()
 }
 
 func (rw *RWMutex) TryLock() bool {
-	if vsched.Active {
+	if vsched.On() {
 		if !vsched.RWTryLock(&rw.st) {
 			return false
 		}
@@ -86,21 +86,21 @@ func (rw *RWMutex) TryLock() bool {
 }
 
 func (rw *RWMutex) Unlock() {
-	if vsched.Active {
+	if vsched.On() {
 		vsched.RWUnlock(&rw.st)
 	}
 	rw.mu.Unlock()
 }
 
 func (rw *RWMutex) RLock() {
-	if vsched.Active {
+	if vsched.On() {
 		vsched.RWRLock(&rw.st)
 	}
 	rw.mu.RLock()
 }
 
 func (rw *RWMutex) TryRLock() bool {
-	if vsched.Active {
+	if vsched.On() {
 		if !vsched.RWTryRLock(&rw.st) {
 			return false
 		}
@@ -111,7 +111,7 @@ func (rw *RWMutex) TryRLock() bool {
 }
 
 func (rw *RWMutex) RUnlock() {
-	if vsched.Active {
+	if vsched.On() {
 		vsched.RWRUnlock(&rw.st)
 	}
 	rw.mu.RUnlock()
@@ -128,27 +128,44 @@ func (r *rlocker) Unlock() { (*RWMutex)(r).RUnlock() }
 // the garbage collector, which would make object reuse (and with it any state an
 // object keeps across reuse) depend on the runtime; here reuse order is fixed. It
 // is not a scheduling point. As with the real Pool, the only happens-before edge is
-// from a Put of an item to the Get that returns that same item.
+// from a Put of an item to the Get that returns that same item: the free list itself
+// is manipulated in norace functions (fixed array, no append: runtime helpers are
+// instrumented even inside norace functions) under a mutex whose events are hidden
+// from the race detector.
 type Pool struct {
 	New func() any
 
 	mu    sync.Mutex
-	items []any
+	items [256]any
+	n     int
 }
 
 func dataPtr(x any) unsafe.Pointer {
 	return (*[2]unsafe.Pointer)(unsafe.Pointer(&x))[1]
 }
 
+//go:norace
+func (p *Pool) pop() (x any) {
+	if p.n > 0 {
+		p.n--
+		x = p.items[p.n]
+		p.items[p.n] = nil
+	}
+	return x
+}
+
+//go:norace
+func (p *Pool) push(x any) {
+	if p.n < len(p.items) {
+		p.items[p.n] = x
+		p.n++
+	}
+}
+
 func (p *Pool) Get() any {
 	vsched.RaceDisable()
 	p.mu.Lock()
-	var x any
-	if n := len(p.items); n > 0 {
-		x = p.items[n-1]
-		p.items[n-1] = nil
-		p.items = p.items[:n-1]
-	}
+	x := p.pop()
 	p.mu.Unlock()
 	vsched.RaceEnable()
 	if x != nil {
@@ -172,7 +189,7 @@ func (p *Pool) Put(x any) {
 	}
 	vsched.RaceDisable()
 	p.mu.Lock()
-	p.items = append(p.items, x)
+	p.push(x)
 	p.mu.Unlock()
 	vsched.RaceEnable()
 }
